@@ -106,6 +106,9 @@ class CreatePredictorBase(ASTNode):
                     ]
                     args_str = ', '.join(args)
                     value = f'{value.type}({args_str})'
+                elif isinstance(value, ASTNode):
+                    # USING key = identifier
+                    value = value.to_string()
                 else:
                     value = json.dumps(value)
 
